@@ -850,6 +850,16 @@ def run(ctx):
                    "float() and str.split/strip are parameters with the contracts recorded in BiomModel/C17.lean",
                    "the dense content of a caller-supplied scipy matrix is read with toarray() before it is handed "
                    "to Table()"]
+    # `import biom` itself builds a table (biom.example_table, 2x3 with metadata) through the constructor:
+    # a constructor that refuses it is a violation, not an infrastructure failure
+    try:
+        import biom  # noqa
+    except Exception as e:  # noqa
+        case = {"op": "import", "what": "import biom builds example_table = Table([[0,1,2],[3,4,5]], "
+                                        "['O1','O2'], ['S1','S2','S3'], metadata...)"}
+        ctx.case(case, nontrivial=True)
+        ctx.fail(case, "forms_accept", ["import-biom", core.err_name(e)], detail={"exception": repr(e)})
+        return
     fixed_corpus(ctx)
     outside_domain(ctx, rng)
 
@@ -953,6 +963,12 @@ def run(ctx):
 def replay(ctx, rec):
     case = rec["case"]
     op = case.get("op")
+    if op == "import":
+        try:
+            import biom  # noqa
+        except Exception as e:  # noqa
+            ctx.fail(case, "forms_accept", ["import-biom", core.err_name(e)], detail={"exception": repr(e)})
+        return
     if op == "construct":
         run_construct(ctx, case, ("replay",))
     elif op == "decode":
